@@ -39,7 +39,7 @@ def _proc_sched(ck, sched, work):
         ck.violation("Processor crashed under a forced schedule: %s" % (first[0] if first else "crash"),
                      {"kind": "proc-sched", "schedule": json.loads(lines[crashed]), "output": p.stdout[-3000:]})
         skip = crashed + 1
-        if crashes >= 25:
+        if crashes >= 6:
             vlib.log("  (stopping after %d crashing schedules)" % crashes)
             break
     evs = [e for e in (vlib.read_ndjson(out) if os.path.exists(out) else []) if e.get("op") == "procsched"]
